@@ -189,14 +189,24 @@ class Gen:
         for k in a:
             a[k] = [s for s in a[k] if _encodable(s, enc)] or \
                 list(ALPHABETS["plain"][k])
-        if r.random() < self.prof["known_triggers"]:
-            a["m"] = a["m"] + KNOWN_TRIGGERS["m"]
-            a["tv"] = a["tv"] + KNOWN_TRIGGERS["tv"]
+        self.triggers = r.random() < self.prof["known_triggers"]
+        if not self.triggers and self.cfg["storage"] == "csv" and \
+                self.cfg["dialect"] == "lf":
+            # Python's csv writer does not quote a bare CR when the line
+            # terminator is LF, while the reader ends the row there: a
+            # limitation of the platform recorded as a known finding; the
+            # bulk of the runs stays clear of it.
+            for k in a:
+                a[k] = [x for x in a[k] if "\r" not in x] or \
+                    list(ALPHABETS["plain"][k])
         # keep alphabets small: collisions, duplicates, overlaps are the norm
         a["m"] = r.sample(a["m"], min(len(a["m"]), r.choice([2, 3])))
         a["tk"] = r.sample(a["tk"], min(len(a["tk"]), r.choice([2, 3, 4])))
         a["fk"] = r.sample(a["fk"], min(len(a["fk"]), r.choice([2, 3, 4])))
         a["tv"] = r.sample(a["tv"], min(len(a["tv"]), r.choice([3, 4, 6])))
+        if self.triggers:
+            a["m"] = a["m"][:2] + KNOWN_TRIGGERS["m"]
+            a["tv"] = a["tv"][:3] + KNOWN_TRIGGERS["tv"]
         self.alpha_name = name
         return a
 
@@ -517,11 +527,13 @@ class Gen:
             elif n == "unset_tags":
                 ks = r.sample(a["tk"], r.choice([1, 1, 2]) if len(a["tk"]) > 1
                               else 1)
-                spec[n] = ks[0] if len(ks) == 1 and r.random() < 0.5 else ks
+                spec[n] = ks[0] if len(ks) == 1 and ks[0] != "" and \
+                    r.random() < 0.5 else ks
             elif n == "unset_fields":
                 ks = r.sample(a["fk"], r.choice([1, 1, 2]) if len(a["fk"]) > 1
                               else 1)
-                spec[n] = ks[0] if len(ks) == 1 and r.random() < 0.5 else ks
+                spec[n] = ks[0] if len(ks) == 1 and ks[0] != "" and \
+                    r.random() < 0.5 else ks
         return spec
 
     # -- routing ------------------------------------------------------------------
